@@ -33,8 +33,15 @@ fn near_miss_line(rng: &mut Rng) -> Vec<u8> {
     let k = rng.range(1, n as usize) as u8;
     let base = make_line(ADDR, n, k, if n > 1 { Some(rng.below(10) as u8) } else { None }, b"A", &payload, rng.below(6) as u8);
     let lx = lex(&base).unwrap();
-    let nums: &[&[u8]] = &[b"0", b"00", b"255", b"256", b"999", b"65536", b"4294967296", b"", b"-1", b"+1", b" 1", b"1 ", b"0x1", b"1e1"];
-    let fills: &[&[u8]] = &[b"6", b"7", b"8", b"9", b"10", b"16", b"255", b"256", b"", b"05", b"06", b"007", b"-1"];
+    let nums: &[&[u8]] = &[
+        b"0", b"00", b"255", b"256", b"999", b"65536", b"4294967296", b"", b"-1", b"+1", b" 1", b"1 ", b"0x1", b"1e1",
+        b"18446744073709551615", b"18446744073709551616", b"99999999999999999999",
+        b"340282366920938463463374607431768211456", b"0000000000000000000000000000000000000001",
+    ];
+    let fills: &[&[u8]] = &[
+        b"6", b"7", b"8", b"9", b"10", b"16", b"255", b"256", b"", b"05", b"06", b"007", b"-1",
+        b"18446744073709551616", b"99999999999999999999", b"000000000000000000000000000005",
+    ];
     let repl: Vec<(usize, Vec<u8>)> = match rng.below(8) {
         0 | 1 | 2 => vec![(6, rng.pick(fills).to_vec())],
         3 => vec![(1, rng.pick(nums).to_vec())],
